@@ -135,7 +135,7 @@ package gorm
 
 //@ func (*DB).Clauses
 //@   tags C06
-//@   requires db.clone > 0
+//@   when db.clone > 0
 //@   modifies nothing
 //@   loop 1 invariant whereConds == nil || fresh(whereConds)
 //@   ensures fresh-result: fresh(result)
@@ -507,7 +507,7 @@ package gorm
 //@   pure
 
 //@ # ---------- chain methods on a chain in progress (clone == 0): they continue on the same handle ----------
-//@ funcalt chained (*DB).Model (*DB).Table (*DB).Omit (*DB).MapColumns (*DB).Where (*DB).Not (*DB).Or (*DB).Joins (*DB).InnerJoins (*DB).Group (*DB).Having (*DB).Order (*DB).Limit (*DB).Offset (*DB).Scopes (*DB).Preload (*DB).Attrs (*DB).Assign (*DB).Unscoped joins
+//@ funcalt chained (*DB).Model (*DB).Table (*DB).Omit (*DB).MapColumns (*DB).Where (*DB).Not (*DB).Or (*DB).Joins (*DB).InnerJoins (*DB).Group (*DB).Having (*DB).Order (*DB).Limit (*DB).Offset (*DB).Scopes (*DB).Preload (*DB).Attrs (*DB).Assign (*DB).Unscoped (*DB).Clauses joins
 //@   tags C06
 //@   when db.clone <= 0
 //@   assumes chain-handle-well-formed: db.Statement != nil && db.Statement.DB == db
